@@ -41,6 +41,9 @@ BODIES = {
     'call': json.dumps(call('ok', [2])).encode(), 'unknown': json.dumps(call('nope')).encode(),
     'perr': json.dumps(call('perr')).encode(), 'boom': json.dumps(call('boom')).encode(),
     'invalid': b'{"jsonrpc":"2.0","id":1}', 'parse': b'{"jsonrpc": ', 'empty': b'',
+    # parameters that do not bind (-32602 with the validator's description as data), alone and inside a batch
+    'nobind': json.dumps(call('ok', [1, 2, 3])).encode(), 'nobind-named': json.dumps(call('ok', {'zz': 1})).encode(),
+    'mixed-nobind': json.dumps([call('ok', [1], 1), call('ok', {'zz': 1}, 2), call('ok', [1, 2], None)]).encode(),
     'batch': json.dumps([call('ok', [1], 1), call('ok', [2], 2)]).encode(),
     'mixed': json.dumps([call('ok', [1], 1), call('ok', [2], None), call('nope', None, 'x'), call('perr', None, 3)]).encode(),
     'notif': json.dumps(call('ok', [3], None)).encode(), 'notif-fail': json.dumps(call('boom', None, None)).encode(),
@@ -112,7 +115,7 @@ ASCII_ONLY = ('unicode', 'non-utf8', 'bom')
 # requests served one after the other by ONE long-lived application: (media type, body)
 SEQ_ALPHABET = [('application/json', 'call'), ('text/plain', 'call'), (None, 'call'), ('application/json', 'parse'),
                 ('application/json', 'non-utf8'), ('application/json; charset=utf-8', 'notif'), ('application/json-rpc', 'perr'),
-                ('text/html', 'notif'), ('application/json', 'mixed')]
+                ('text/html', 'notif'), ('application/json', 'mixed'), ('application/json', 'nobind')]
 
 
 def other_charset(ct):
